@@ -662,6 +662,109 @@ func exprRandom(rng *rand.Rand, lo, hi int) []string {
 	}
 }
 
+// exprLexRandom: a character-class string made of token-like fragments (numbers in all their forms,
+// strings with escapes, identifiers, operators, white space) with 0..2 random edits; mostly followed
+// by the end marker.
+func exprLexRandom(rng *rand.Rand, lo, hi int) []string {
+	pick := func(xs ...string) string { return xs[rng.Intn(len(xs))] }
+	digits := func(n int) []string {
+		var out []string
+		for i := 0; i < n; i++ {
+			out = append(out, pick("zero", "nz", "nz"))
+		}
+		return out
+	}
+	var all []string
+	for c := range exprCharReps {
+		all = append(all, c)
+	}
+	sortStrings(all)
+	for {
+		var s []string
+		n := lo + rng.Intn(hi-lo+1)
+		for len(s) < n {
+			switch rng.Intn(9) {
+			case 0: // identifier
+				s = append(s, pick("alpha", "hexalpha", "e", "x", "under"))
+				for k := rng.Intn(4); k > 0; k-- {
+					s = append(s, pick("alpha", "hexalpha", "e", "x", "under", "minus", "zero", "nz"))
+				}
+			case 1, 2: // decimal number
+				if rng.Intn(3) == 0 {
+					s = append(s, "minus")
+				}
+				if rng.Intn(3) == 0 {
+					s = append(s, "zero")
+				} else {
+					s = append(append(s, "nz"), digits(rng.Intn(3))...)
+				}
+				if rng.Intn(2) == 0 {
+					s = append(append(s, "dot"), digits(1+rng.Intn(2))...)
+				}
+				if rng.Intn(2) == 0 {
+					s = append(s, "e")
+					if rng.Intn(2) == 0 {
+						s = append(s, pick("minus", "minus", "plus"))
+					}
+					s = append(s, digits(1+rng.Intn(2))...)
+				}
+			case 3: // hex
+				s = append(s, "zero", "x")
+				for k := 1 + rng.Intn(3); k > 0; k-- {
+					s = append(s, pick("zero", "nz", "hexalpha", "e"))
+				}
+			case 4: // string
+				s = append(s, "quote")
+				for k := rng.Intn(5); k > 0; k-- {
+					if rng.Intn(3) == 0 {
+						s = append(s, "quote", "quote")
+					} else {
+						s = append(s, pick("alpha", "ws", "rbrace", "illegal", "dot", "nz", "lp", "amp"))
+					}
+				}
+				s = append(s, "quote")
+			case 5: // operator
+				switch rng.Intn(8) {
+				case 0:
+					s = append(s, "bang", "eq")
+				case 1:
+					s = append(s, pick("lt", "gt"), "eq")
+				case 2:
+					s = append(s, "eq", "eq")
+				case 3:
+					s = append(s, "amp", "amp")
+				case 4:
+					s = append(s, "bar", "bar")
+				default:
+					s = append(s, pick("bang", "lt", "gt", "lp", "rp", "lb", "rb", "dot", "star", "comma"))
+				}
+			case 6:
+				s = append(s, "ws")
+			default:
+				s = append(s, all[rng.Intn(len(all))])
+			}
+		}
+		for edits := rng.Intn(3); edits > 0 && len(s) > 1; edits-- {
+			i := rng.Intn(len(s))
+			switch rng.Intn(3) {
+			case 0:
+				s = append(s[:i:i], s[i+1:]...)
+			case 1:
+				s[i] = all[rng.Intn(len(all))]
+			default:
+				s = append(s[:i:i], append([]string{all[rng.Intn(len(all))]}, s[i:]...)...)
+			}
+		}
+		if len(s) > hi {
+			continue
+		}
+		if rng.Intn(5) != 0 {
+			s = append(s, "rbrace", "rbrace")
+		}
+		return s
+	}
+}
+
 // ----------------------------------------------------------------------------------- lint level
 
 var exprSyntaxAnchors = []string{
@@ -947,6 +1050,26 @@ func init() {
 			return exprLint(v.ID, v.Ts, rot, variant)
 		})
 		return writeJSONL(args[1], out)
+	})
+
+	// expr-lex-random <n> <minlen> <maxlen> <seed> <out.ndjson>: random longer character strings on the real lexer
+	register("expr-lex-random", func(args []string) error {
+		watchdog()
+		n, _ := strconv.Atoi(args[0])
+		lo, _ := strconv.Atoi(args[1])
+		hi, _ := strconv.Atoi(args[2])
+		seed, _ := strconv.ParseInt(args[3], 10, 64)
+		rng := rand.New(rand.NewSource(seed))
+		type job struct {
+			s   []string
+			rot int
+		}
+		jobs := make([]job, n)
+		for i := range jobs {
+			jobs[i] = job{exprLexRandom(rng, lo, hi), rng.Intn(1000)}
+		}
+		recs := parallelMap(jobs, func(j job) ExprLexRun { return exprLexExec(j.s, j.rot) })
+		return writeJSONL(args[4], recs)
 	})
 
 	// expr-random <n> <minlen> <maxlen> <seed> <out.ndjson>: the recorder for ExprTrace.tla
